@@ -883,3 +883,91 @@ for _s in list(SPECS):
         _c = _copy.copy(_s)
         _c.prop = 'C13'
         SPECS.append(_c)
+
+
+# ----------------------------------------------------------------------------- C14: failures of request / response handlers
+# (anchored mechanism "exception handler turns handler errors into responses"): a request whose handler failed is answered by
+# exactly one httperror / redirect - once, however many handlers failed - and a failed `response` handler by one fresh 500.
+def rf_setup(I):
+    self = obj(I, 'self', 'HTTP')
+    req, res = obj(I, 'req', 'Request'), obj(I, 'res', 'Response')
+    c = I.st.choice(3, 'error_kind')
+    cls = ('RedirectException', 'HTTPException', 'KeyError')[c]
+    ev_ = VExc(cls, [])
+    if c == 0:
+        ev_.attrs['urls'] = VCList([VStr(core.fresh('url', S()))])
+        ev_.attrs['code'] = VInt(core.fresh('code', z3.IntSort()))
+    if c == 1:
+        ev_.attrs['code'] = VInt(core.fresh('code', z3.IntSort()))
+        ev_.attrs['description'] = VStr(core.fresh('description', S()))
+    I.st.ghost['ERR_KIND'] = cls
+    I.st.ghost['HANDLED0'] = I.fz(req, 'handled')
+    error = VTuple([VClass(cls), ev_, I.st.fresh_ref('traceback')])
+    return {'self': self, 'erequest': VCons('request', [req, res]), 'error': error, 'req': req, 'res': res}
+
+
+def rf_post(I, outcome, ctx):
+    kind, v = outcome
+    if kind == 'raise':
+        I.oblige('no_escape', z3.BoolVal(False), detail='escaping %s' % v.cls)
+        return
+    cover(I, 'return')
+    a = ctx['args']
+    fired = log(I, 'FIRED')
+    h0 = I.st.ghost['HANDLED0']
+    I.oblige('answered_exactly_once_unless_already_handled', z3.BoolVal(len(fired) == 1) == z3.Not(h0),
+             detail='a failed request is answered by one error response / redirect; a request already answered is left alone')
+    I.oblige('request_marked_handled', I.fz(a['req'], 'handled'))
+    for e in fired:
+        cover(I, 'answered')
+        want = 'redirect' if I.st.ghost['ERR_KIND'] == 'RedirectException' else 'httperror'
+        ok = isinstance(e, VCons) and e.tag == want and len(e.args) >= 2 and isinstance(e.args[0], VRef) and isinstance(e.args[1], VRef)
+        I.oblige('answer_is_the_%s_for_this_request_and_response' % want, z3.BoolVal(ok) if not ok else
+                 z3.And(e.args[0].t == a['req'].t, e.args[1].t == a['res'].t))
+
+
+SPECS.append(FucSpec(
+    'C14', HTTP, 'HTTP._on_request_failure', rf_setup, rf_post, fields=P_FIELDS,
+    calls={'self.fire': s_fire, 'httperror': ev('httperror'), 'redirect': ev('redirect')},
+    exc_parents={'RedirectException': 'HTTPException', 'HTTPException': 'Exception'},
+    env={'RedirectException': VClass('RedirectException'), 'HTTPException': VClass('HTTPException')},
+    cover=['return', 'answered'],
+    clause='_on_request_failure: a failed request that was not answered yet gets exactly one redirect (RedirectException) or '
+           'httperror for its own request/response pair and is marked handled; an answered one gets nothing more'))
+
+
+def pf_setup(I):
+    self = obj(I, 'self', 'HTTP')
+    res = obj(I, 'res', 'Response')
+    req = I.field(res, 'request')
+    I.assume(req.t != core.null())
+    I.st.ghost['DONE0'] = I.fz(res, 'done')
+    error = VTuple([VClass('KeyError'), VExc('KeyError', []), I.st.fresh_ref('traceback')])
+    return {'self': self, 'eresponse': VCons('response', [res]), 'error': error, 'res': res}
+
+
+def pf_post(I, outcome, ctx):
+    kind, v = outcome
+    if kind == 'raise':
+        I.oblige('no_escape', z3.BoolVal(False), detail='escaping %s' % v.cls)
+        return
+    cover(I, 'return')
+    a = ctx['args']
+    fired = log(I, 'FIRED')
+    d0 = I.st.ghost['DONE0']
+    I.oblige('one_error_response_unless_the_response_was_already_sent', z3.BoolVal(len(fired) == 1) == z3.Not(d0))
+    for e in fired:
+        cover(I, 'answered')
+        ok = isinstance(e, VCons) and e.tag == 'httperror' and len(e.args) >= 2 and isinstance(e.args[1], VRef)
+        I.oblige('answer_is_an_httperror_with_a_fresh_response', z3.BoolVal(ok) if not ok else
+                 z3.And(e.args[0].t == I.field(a['res'], 'request').t, e.args[1].t != a['res'].t))
+        st = I.st.ghost.get('RESPONSE_STATUS')
+        I.oblige('fresh_response_is_a_500', z3.BoolVal(st is not None) if st is None else st == 500)
+
+
+SPECS.append(FucSpec(
+    'C14', HTTP, 'HTTP._on_response_failure', pf_setup, pf_post, fields=P_FIELDS,
+    calls={'self.fire': s_fire, 'httperror': ev('httperror'), 'wrappers.Response': s_Response_status},
+    cover=['return', 'answered'],
+    clause='_on_response_failure: a response whose handler failed before it was sent is replaced by exactly one httperror with a '
+           'fresh 500 response for the same request; a response already sent is left alone'))
